@@ -530,7 +530,21 @@ impl<S: Read> Parser<S> {
         let len = len as usize;
         let mut rdata = Vec::with_capacity(len);
         while rdata.len() < len {
-            let high_nibble = self.parse_ascii_hex_digit()?;
+            let high_nibble = match self.reader.read_field_octet()? {
+                Some(digit) => self.ascii_hex_digit_to_nibble(digit)?,
+                None => {
+                    // RFC 3597 § 5 allows the hexadecimal data to be
+                    // split into several words, each containing an even
+                    // number of digits. This word has ended on an octet
+                    // boundary, so we continue with the next word (if
+                    // there is one).
+                    let position = self.reader.position();
+                    if self.reader.skip_to_next_field_or_to_eol()? == FieldOrEol::Field {
+                        continue;
+                    }
+                    return Err(Error::new(position, ErrorKind::UnexpectedEndOfHexRdata));
+                }
+            };
             let low_nibble = self.parse_ascii_hex_digit()?;
             rdata.push((high_nibble << 4) | low_nibble);
         }
@@ -540,17 +554,22 @@ impl<S: Read> Parser<S> {
     /// Parses a single ASCII hexadecimal digit.
     fn parse_ascii_hex_digit(&mut self) -> Result<u8> {
         match self.reader.read_field_octet()? {
-            Some(digit) => match ascii_hex_digit_to_nibble(digit) {
-                Some(n) => Ok(n),
-                None => Err(Error::new(
-                    self.reader.position(),
-                    ErrorKind::InvalidHexDigit,
-                )),
-            },
+            Some(digit) => self.ascii_hex_digit_to_nibble(digit),
             None => Err(Error::new(
                 self.reader.position(),
                 ErrorKind::UnexpectedEndOfHexRdata,
             )),
         }
+    }
+
+    /// Converts an ASCII hexadecimal digit that was just read to its
+    /// value.
+    fn ascii_hex_digit_to_nibble(&self, digit: u8) -> Result<u8> {
+        ascii_hex_digit_to_nibble(digit).ok_or_else(|| {
+            Error::new(
+                self.reader.position(),
+                ErrorKind::InvalidHexDigit,
+            )
+        })
     }
 }
